@@ -1,14 +1,20 @@
 use fbrv::args::Args;
-use fbrv::engines::wire_eng;
+use fbrv::engines::{transport_eng, wire_eng};
 
 fn main() {
     let args = Args::parse();
     fbrv::env::quiet_panics();
+    if args.prop == "T-debug" {
+        transport_eng::debug();
+        return;
+    }
     let rep = match args.prop.as_str() {
         "C01" => wire_eng::c01(&args),
         "C02" => wire_eng::c02(&args),
         "C03" => wire_eng::c03(&args),
         "C12" => wire_eng::c12(&args),
+        "C04" => transport_eng::run(&args, "C04"),
+        "C17" => transport_eng::run(&args, "C17"),
         p => {
             eprintln!("unknown property {}", p);
             std::process::exit(2);
